@@ -188,6 +188,11 @@ func paramAccesses(fn *ssa.Function, pi int, keep func(*ssa.Function) bool, dept
 				visit(x, path, seen)
 			case *ssa.UnOp:
 				if x.Op == token.MUL && x.X == v {
+					if !contentUsed(x) {
+						// the loaded value is used for nothing, or only for its (constant) length: `for i := range p.MIC`
+						// over an array field loads the array and looks at no element
+						continue
+					}
 					acc = append(acc, Access{Path: path, Instr: x, Kind: "read", How: "load"})
 					// a loaded slice/pointer/interface gives access to other objects, not to this one
 				}
@@ -328,4 +333,27 @@ func StructFields(t types.Type) []string {
 		out = append(out, st.Field(i).Name())
 	}
 	return out
+}
+
+// contentUsed: some use of the loaded value looks at its content (anything but len/cap of an array value and debug
+// references).
+func contentUsed(ld *ssa.UnOp) bool {
+	refs := ld.Referrers()
+	if refs == nil {
+		return true
+	}
+	for _, r := range *refs {
+		switch u := r.(type) {
+		case *ssa.DebugRef:
+			continue
+		case *ssa.Call:
+			if b, ok := u.Call.Value.(*ssa.Builtin); ok && (b.Name() == "len" || b.Name() == "cap") {
+				if _, isArr := ld.Type().Underlying().(*types.Array); isArr {
+					continue
+				}
+			}
+		}
+		return true
+	}
+	return false
 }
